@@ -346,7 +346,14 @@ def check_bank(ctx, F, S, np, cfg, bad, deep=True):
             continue
         if not narrow:
             continue
-        W = 1 << 13 if cfg["cls"] == "gabor" else 1 << 16
+        e_l, e_r = lay["edges"][i], lay["edges"][i + 1]
+        bw = e_r - e_l
+        W, cap = (1 << 12, 1 << 14) if cfg["cls"] == "gabor" else (1 << 15, 1 << 21)
+        while bw * W / rate < 16 and W < cap:
+            W *= 2
+        if bw * W / rate < 16:
+            ctx.count("search:unresolved-narrow-filter")
+            continue
         with warnings.catch_warnings():
             warnings.simplefilter("ignore")
             H = np.abs(bank.get_frequency_response(i, W))
@@ -355,8 +362,6 @@ def check_bank(ctx, F, S, np, cfg, bad, deep=True):
         k = int(np.argmax(H))
         pk, kf = log_interp_peak(H, k)
         fpk = kf * rate / W
-        e_l, e_r = lay["edges"][i], lay["edges"][i + 1]
-        bw = e_r - e_l
         chk("peak_at_centre", abs(fpk - cen[i]) <= max(0.02 * bw, 1.5 * rate / W), filt=i, peak_hz=fpk, centre=cen[i])
         l2 = cfg["l2"]
         if not l2:
@@ -576,7 +581,8 @@ def bank_goals(ctx, F, S, np, cfg, bank, G):
                 warnings.simplefilter("ignore")
                 h = bank.get_impulse_response(i, wt)
             pk = float(np.max(np.abs(h)))
-            for t in sorted(set([0, 1, r.randint(0, max(1, ts[1] // 2)), ts[1]])):
+            mid_tail = float(np.max(np.abs(h[wt // 2 - 2: wt // 2 + 3])))
+            for t in (sorted(set([0, 1, r.randint(0, max(1, ts[1] // 2)), ts[1]])) if mid_tail <= 1e-13 * pk else []):
                 v = float(abs(h[t]))
                 G.near("(gabor_ir_abs %s %s %s)" % (b(cfg["l2"]), std, q(t)), v, 1e-9 * pk, CERT,
                        dict(kind="gabor_ir", filt=i, width=wt, t=t, value=v, **base))
@@ -593,8 +599,9 @@ def bank_goals(ctx, F, S, np, cfg, bank, G):
             warnings.simplefilter("ignore")
             h = bank.get_impulse_response(i, wt)
         pk = float(np.max(np.abs(h)))
-        cand = [1, 2, r.randint(1, max(2, ts[1] // 3)), max(1, ts[1] // 2)]
-        if cfg["mc"] and ts[0] < -1:
+        mid_tail = float(np.max(np.abs(h[wt // 2 - 2: wt // 2 + 3])))
+        cand = [1, 2, r.randint(1, max(2, ts[1] // 3)), max(1, ts[1] // 2)] if mid_tail <= 1e-13 * pk else []
+        if cand and cfg["mc"] and ts[0] < -1:
             cand += [0, -1, ts[0] // 2]
         for t in sorted(set(cand)):
             v = float(abs(h[t % wt]))
@@ -634,6 +641,8 @@ def measure_goals(ctx, np, cfg, bank, T, G, i, base):
     k = int(np.argmax(H))
     pk, _ = log_interp_peak(H, k)
     erb = float((H ** 2).sum() * rate / W / pk ** 2)
+    if erb < 30 * rate / W:
+        return  # too narrow for this grid to integrate
     l2sq = float((H ** 2).sum() / W)  # Parseval: sum |h[t]|^2 = (1/W) sum |H[k]|^2
     if cls == "gabor":
         erb_t = "(angular_to_hertz (gabor_erb_ang %s %s) %s)" % (b(cfg["l2"]), T.g_std(i), T.rate)
@@ -706,16 +715,21 @@ def run(ctx):
             ranges.append(dict(cls=cls, low=-0.5, high=None, rate=rate))
             ranges.append(dict(cls=cls, low=-0.5, high=100.0, rate=rate))
     nguard = 0
+    known_typeerror = []
     for g in ranges:
         out = run_range(F, g)
         ctx.count("range:%s:%s" % (g["cls"], out.split(":")[0]))
         if must_reject(g) and out != "reject":
-            bad.append(("range_not_rejected", dict(range=g, outcome=out)))
+            if out == "other:TypeError" and g["cls"] != "tri" and g["high"] is None and g["low"] < 0:
+                # finding: the message formats high_hz=None with {:.2f} before the default is applied
+                known_typeerror.append(dict(range=g, outcome=out))
+            else:
+                bad.append(("range_not_rejected", dict(range=g, outcome=out)))
         if out.startswith("other") and not must_reject(g) and g["high"] is not None and g["high"] > g["low"] >= 0 \
                 and g["high"] <= math.floor(g["rate"] / 2):
             bad.append(("valid_range_failed", dict(range=g, outcome=out)))
-        if out in ("accept", "reject") or out.startswith("other"):
-            exp = "reject" if out == "reject" else "accept"
+        if out in ("accept", "reject"):
+            exp = out
             if nguard < ctx.scale(200, 1500) and ok_gen:
                 G.raw(guard_goal(g, exp), dict(kind="range", range=g, outcome=exp))
                 nguard += 1
@@ -767,6 +781,11 @@ def run(ctx):
         ctx.fail("implementation value not certified against the generated model: %r" % (case,),
                  dict(case=case, correspondence="Interval-certified comparison against coq/gen/Banks.v via coq/C05/Model.v", coq_log_tail=log),
                  kind="correspondence")
+    if known_typeerror:
+        ctx.fail("low_hz < 0 with the default high_hz=None raises TypeError instead of ValueError (the message formats "
+                 "None with {:.2f}): %r" % (known_typeerror[0],), dict(check="range_not_rejected", input=known_typeerror[0],
+                                                                      occurrences=len(known_typeerror)),
+                 kind="impl", key="neg-low-default-high-typeerror")
     seen = set()
     for name, detail in bad:
         if name in seen and len(seen) > 6:
